@@ -23,7 +23,7 @@ RULE = {
              "result x every list of up to 3 addresses (pref x is-me x tcpto-skip x connects/refused/timeout) x {good server, 554 greeting, silent server, failing write}. "
              "Compared with the Lean models smtpRunB (smtp() with blast() over the 1024-byte smtpto buffer: report bytes, the exact bytes received by the server, the bytes of the failing write(), "
              "exit status)/rreport/mainRun (relayed line, tcpto_err calls); "
-             "oracle = kSound/rcptOrder/verdictOK(expect), strict also when the QUIT write fails/wireOrderQ/preOK/hostNamed/rspawnSound/rspawnClasses/noUpgrade/relayWithin on the "
+             "oracle = kSound/rcptOrder/verdictOK(expect), strict also when the QUIT write fails/wireOrderQ/preOK/hostNamed/rspawnSound/rspawnClasses/noUpgrade/relayWithin and, end to end, relayAsReplied (the class K/Z/D of the line the real report() relays for the real smtp() output = relayClass(expect): first recipient refused 4xx -> Z, 5xx -> D, otherwise the class of the message verdict, lost connection -> Z - a function of the server's replies only) on the "
              "implementation's output, reading the stream line by line; whether a failing write inside blast() is critical (must be flagged 'Possible duplicate!') is decided from the "
              "bytes of that write (does it carry the last byte of the encoded message?), not from the client's flagcritical; for a failing write of blast() additionally: wire ++ its bytes is a prefix of "
              "commands ++ encoding, and the duplicate flag is present iff C09_flag_computed says so of the implementation's bytes (complete message and all but at most the 3-byte terminator handed over); "
@@ -36,7 +36,7 @@ ASSUME = [
     "substdio buffering of the reads (ssin, smtpfrom) is transparent (several read chunkings are run); the output buffer smtpto is modelled for blast() (Nq.RemoteBuf over Nq.Substdio), the command writes are one write() each (commands shorter than the buffer)",
     "main() is run from dns_mxip's return value on: control files (helohost me.example, no smtproutes), the resolver, ipme, tcpto's file and connect() are scripted answers; addrmangle is run on plain addresses only",
     "blast() runs over the model of the 1024-byte smtpto buffer (substdio_put per piece, substdio_flush, allwrite with short writes): the model computes the writes, the bytes of a failing write() and on which side of 'flagcritical = 1' it falls; the harness names a failing write by its bytes only and never reads the client's flagcritical; write() itself (timeoutwrite/select) is a scripted answer: takes all / at most wchunk bytes / fails",
-    "report() is called with the complete output and the wait status of qmail-remote (spawn.c main loop not modelled); in the harness the collected output is followed by '!' NUL and an ASan red zone, so any read past its end is visible",
+    "report() is called with the complete output and the wait status of qmail-remote (spawn.c main loop: property C18, theorem C18_spawn_report_after_status and its oracle lifeOK); in the harness the collected output is followed by '!' NUL and an ASan red zone, so any read past its end is visible",
     "unsigned long is 64 bits (the verdict comparisons are width-independent, Nq.Lemmas.RemoteSmtp)",
 ]
 
